@@ -399,7 +399,99 @@ pub fn run(ctx: &mut Ctx) {
             }
         }
     }
+    heavy_family(ctx);
     server_family(ctx);
+}
+
+/// Size-heavy cases: the rejected request has consumed several KiB of legal header lines before its
+/// fault, and the continuation has a large head (and possibly another large rejected request) of its own:
+/// nothing proportional to what was consumed before the error may be charged to what follows.
+fn heavy_family(ctx: &mut Ctx) {
+    let quick = ctx.quick();
+    let long_headers = |tag: &str, n: usize, len: usize| -> Vec<u8> {
+        let mut v = Vec::new();
+        for i in 0..n {
+            let mut l = format!("X-{}{}: ", tag, i).into_bytes();
+            while l.len() < len {
+                l.push(b'a' + ((l.len() + i) % 26) as u8);
+            }
+            v.extend_from_slice(&l);
+            v.extend_from_slice(b"\r\n");
+        }
+        v
+    };
+    let faults: [(&[u8], &str); 5] = [
+        (b"nocolon\r\n", "header without colon"),
+        (b"Content-Length: x\r\n", "bad Content-Length"),
+        (b"Content-Length: 51201\r\n\r\n", "size limit"),
+        (b"Accept-Encoding: identity;q=0\r\n", "identity excluded"),
+        (b"X: \xff\r\n", "non-UTF-8 header"),
+    ];
+    let mut idx = 0u64;
+    for (h1, l1) in [(3usize, 900usize), (8, 900), (8, 1020), (20, 400), (60, 1000), (100, 90)] {
+        for (fault, fname) in faults.iter() {
+            for (h2, l2) in [(0usize, 0usize), (2, 900), (9, 900), (9, 1020), (40, 1000)] {
+                for shape in 0..3usize {
+                    idx += 1;
+                    if !ctx.mine(idx) {
+                        continue;
+                    }
+                    if quick && (idx % 3 != 0) {
+                        continue;
+                    }
+                    let mut a = b"GET /REJECTED HTTP/1.1\r\n".to_vec();
+                    a.extend_from_slice(&long_headers("R", h1, l1));
+                    a.extend_from_slice(fault);
+                    let valid = |tag: &str| -> Vec<u8> {
+                        let mut v = format!("PUT /after-{} HTTP/1.1\r\n", tag).into_bytes();
+                        v.extend_from_slice(&long_headers(tag, h2, l2));
+                        v.extend_from_slice(b"Content-Length: 5\r\n\r\nhello");
+                        v
+                    };
+                    let mut b = Vec::new();
+                    match shape {
+                        0 => b.extend_from_slice(&valid("A")),
+                        1 => {
+                            // a second large rejected request, then two valid ones
+                            b.extend_from_slice(b"GET /REJECTED2 HTTP/1.1\r\n");
+                            b.extend_from_slice(&long_headers("S", h1, l1));
+                            b.extend_from_slice(b"nocolon2\r\n");
+                            b.extend_from_slice(&valid("B"));
+                            b.extend_from_slice(&valid("C"));
+                        }
+                        _ => {
+                            b.extend_from_slice(&valid("D"));
+                            b.extend_from_slice(&valid("E"));
+                            b.extend_from_slice(&valid("F"));
+                        }
+                    }
+                    let mut rng = ctx.item_rng(0xC11_4EA, idx);
+                    for cuts_kind in 0..3usize {
+                        let (cuts_a, cuts_b) = match cuts_kind {
+                            0 => (vec![], vec![]),
+                            1 => (gen::const_cuts(a.len(), 1024), gen::const_cuts(b.len(), 1000)),
+                            _ => (gen::random_cuts(&mut rng, a.len(), 5), gen::random_cuts(&mut rng, b.len(), 6)),
+                        };
+                        let case = Case {
+                            a: a.clone(),
+                            b: b.clone(),
+                            limit: 51200,
+                            cuts_a,
+                            cuts_b,
+                            fd_seg: usize::MAX,
+                            nfds: 0,
+                            what: format!("{} after {} legal header lines of {} bytes | then shape {} with {} header lines of {} bytes", fname, h1, l1, shape, h2, l2),
+                        };
+                        ctx.rep.count("heavy_cases");
+                        ctx.rep.max("max_rejected_head_bytes", a.len() as u64);
+                        if exec(ctx, &case) {
+                            return;
+                        }
+                    }
+                }
+            }
+        }
+    }
 }
 
 // ------------------------------------------------------------------ server level
